@@ -1669,7 +1669,7 @@ class Stream(AbstractStream):
                 raise RuntimeError('phase is locked; stream cannot be unlinked')
             else:
                 imol._phase = imol._phase.copy()
-        imol._data_cache.clear()
+        imol._data_cache = {}
         imol.data = imol.data.copy()
         if hasattr(self, '_streams'): self._streams.clear()
         self._thermal_condition = self._thermal_condition.copy()
